@@ -115,7 +115,7 @@ Qed.
 Lemma int_lit_props : forall cf z,
   wp (int_lit cf z) = true /\ 14 <= level (int_lit cf z) /\ lneg (int_lit cf z) = (z <? 0)%Z.
 Proof.
-  intros. unfold int_lit. destruct (fl cf); [apply lit_of_Z_props|].
+  intros. unfold int_lit. destruct (fl cf || negb (fits_slong z)); [apply lit_of_Z_props|].
   destruct z; simpl; unfold PREC_UNARY, PREC_PRIMARY; repeat split; lia.
 Qed.
 
@@ -589,11 +589,14 @@ Proof.
     cbn [cguard] in G. apply andb_true_iff in G. destruct G as [G Gr]. apply andb_true_iff in G. destruct G as [Ga Gb].
     destruct (is_relational code) eqn:ER.
     { bind_ok H ta E. bind_ok H tb E'. inversion H; subst.
-      destruct (IHpr _ _ E Ga) as [Wa [La _]]. destruct (IHpr _ _ E' Gb) as [Wb [Lb _]].
       pose proof (rel_op_prec code ER) as PR.
-      assert (Q : bprec (rel_op code) <= level ta /\ bprec (rel_op code) < level tb /\ 9 <= bprec (rel_op code) <= 10).
-      { rewrite PR. destruct (is_rel_eq code); apply andb_true_iff in Gr; destruct Gr as [R1 R2];
-          apply N.leb_le in R1; apply N.ltb_lt in R2; lia. }
+      assert (Q : wp ta = true /\ wp tb = true /\ bprec (rel_op code) <= level ta /\ bprec (rel_op code) < level tb /\ 9 <= bprec (rel_op code) <= 10).
+      { rewrite PR. destruct (is_rel_eq code); apply andb_true_iff in Gr; destruct Gr as [R1 R2].
+        - destruct (ple_inv pr IHpr _ _ 9 _ E Ga R1) as [Wa La]; [lia|].
+          destruct (ple_inv pr IHpr _ _ 10 _ E' Gb R2) as [Wb Lb]; [lia|]. repeat split; auto; lia.
+        - destruct (ple_inv pr IHpr _ _ 10 _ E Ga R1) as [Wa La]; [lia|].
+          destruct (ple_inv pr IHpr _ _ 11 _ E' Gb R2) as [Wb Lb]; [lia|]. repeat split; auto; lia. }
+      destruct Q as [Wa [Wb Q]].
       destruct Q as [Q1 [Q2 Q3]].
       split; [apply wp_bin; repeat split; auto|].
       cbn [clev level lmin lneg]. rewrite ER.
